@@ -223,6 +223,76 @@ func runTagKeep(c *core.Ctx) {
 				}
 			}
 		}
+		// a method that only removes (never appends to the list) removes every matching entry: after a removal the
+		// scan continues — no path from the removal leaves the loop without passing its header again
+		appends := false
+		an.Instrs(fn, func(in ssa.Instruction) {
+			if st, ok := in.(*ssa.Store); ok && isManifestsField(st.Addr) {
+				if call, ok := st.Val.(*ssa.Call); ok {
+					if bi, ok := call.Call.Value.(*ssa.Builtin); ok && bi.Name() == "append" {
+						appends = true
+					}
+				}
+			}
+		})
+		if !appends {
+			k := 0
+			for _, s := range found {
+				if s.kind != "remove" {
+					continue
+				}
+				k++
+				h := loopHeader(s.block)
+				if h == nil {
+					// a block that leaves the loop unconditionally is not part of the loop: find the loop through the
+					// position variable (a phi in the header of the scanning loop)
+					if in, ok := s.idx.(ssa.Instruction); ok && in.Block() != nil {
+						hb := in.Block()
+						if _, isPhi := s.idx.(*ssa.Phi); !isPhi {
+							// rangeindex+1 style: the phi lives in the same block
+							for _, x := range hb.Instrs {
+								if _, ok := x.(*ssa.Phi); ok {
+									isPhi = true
+								}
+							}
+						}
+						for _, p := range hb.Preds {
+							if hb.Dominates(p) {
+								h = hb
+							}
+						}
+					}
+					if h == nil {
+						continue
+					}
+				}
+				seen := map[*ssa.BasicBlock]bool{}
+				var escapes func(b *ssa.BasicBlock) bool
+				escapes = func(b *ssa.BasicBlock) bool {
+					if b == h || seen[b] {
+						return false
+					}
+					seen[b] = true
+					if len(b.Succs) == 0 {
+						return true
+					}
+					for _, x := range b.Succs {
+						if escapes(x) {
+							return true
+						}
+					}
+					return false
+				}
+				esc := false
+				for _, x := range s.block.Succs {
+					if escapes(x) {
+						esc = true
+					}
+				}
+				sites++
+				c.Check(!esc, fmt.Sprintf("remove-all:%s#%d", c.P.FuncName(fn), k), s.at.Pos(), "after the removal at %s the scan of %s continues with the remaining entries: %v — otherwise only the first matching entry is removed and the other tags of a deleted digest stay listed and resolvable", c.P.Pos(s.at.Pos()), c.P.FuncName(fn), !esc)
+			}
+		}
 		n := map[string]int{}
 		for _, s := range found {
 			sites++
